@@ -1081,6 +1081,34 @@ func main() {
 		lines = append(lines, fmt.Sprintf("rfc %d %d %s", k.Sep, k.Comment, hx.Hex(d)))
 	}
 
+	// ---- the two reference formulations the theorems are stated about (no BOM: there the
+	// pinned tree's $0 depends on the buffer, which these formulations do not have) ----
+	areadStart := len(lines)
+	var areadIdx []int
+	for i, k := range reads {
+		if !hasBOM(k.Data) && len(k.Data) <= 4096 {
+			areadIdx = append(areadIdx, i)
+			l := strings.Replace(k.line(), "read ", "aread ", 1)
+			// aread has no buffer parameters: drop cap and max
+			parts := strings.SplitN(l, " ", 7)
+			l = strings.Join(append(parts[:4], parts[6:]...), " ")
+			lines = append(lines, l)
+		}
+	}
+	readallStart := len(lines)
+	var readallIdx []int
+	for _, g := range groups {
+		k := reads[g[0]]
+		if !hasBOM(k.Data) && len(k.Data) <= 4096 {
+			readallIdx = append(readallIdx, g[0])
+			h := "0"
+			if k.Header {
+				h = "1"
+			}
+			lines = append(lines, fmt.Sprintf("readall %d %d %s %s", k.Sep, k.Comment, h, hx.Hex(k.Data)))
+		}
+	}
+
 	// ---- write / join / reparse ----
 	nWrite := 120
 	if thorough {
@@ -1197,6 +1225,18 @@ func main() {
 				continue // after a panic the buffered output of the implementation is lost
 			}
 			rep.Mismatch(hx.Mismatch{Class: "read/" + k.Via + "/" + readClass(k), Input: trunc(lines[i]), Impl: trunc(g), Model: trunc(m)})
+		}
+	}
+	for j, i := range areadIdx {
+		rep.CorrEvals++
+		if model != nil && model[areadStart+j] != readImpl[i] && !strings.HasSuffix(readImpl[i], "|toolong") {
+			rep.Mismatch(hx.Mismatch{Class: "abstract scanner loop (arun)", Input: trunc(lines[areadStart+j]), Impl: trunc(readImpl[i]), Model: trunc(model[areadStart+j])})
+		}
+	}
+	for j, i := range readallIdx {
+		rep.CorrEvals++
+		if model != nil && model[readallStart+j] != readImpl[i] && !strings.HasSuffix(readImpl[i], "|toolong") {
+			rep.Mismatch(hx.Mismatch{Class: "whole-input reader (read_file)", Input: trunc(lines[readallStart+j]), Impl: trunc(readImpl[i]), Model: trunc(model[readallStart+j])})
 		}
 	}
 	for gi, g := range groups {
